@@ -12,7 +12,11 @@ New objects are numbered like the specification numbers them (DF!AllocMF / DCopy
 in use, in the order region, subregions, mesh, field - so that a conforming step yields *the same heap*, and
 any difference in sharing shows up as a different graph.
 """
+import copy
+import json
+import math
 import os
+import re
 from fractions import Fraction
 
 import numpy as np
@@ -38,18 +42,18 @@ def frac(r):
 
 
 def heap_dict(h):
-    if isinstance(h, (tuple, list)) and (not h or not (isinstance(h[0], (list, tuple)) and len(h[0]) == 2 and isinstance(h[0][0], int)
-                                                       and isinstance(h[0][1], dict))):
-        return {i + 1: v for i, v in enumerate(h)}
-    if isinstance(h, (tuple, list)):
+    """heap of a parsed state / of a JSON trace -> {oid: record}"""
+    if isinstance(h, dict):
+        return {int(k): v for k, v in h.items()}
+    if h and isinstance(h[0], (list, tuple)) and len(h[0]) == 2 and isinstance(h[0][0], int) and isinstance(h[0][1], dict):
         return {int(k): v for k, v in h}
-    return {int(k): v for k, v in h.items()}
+    return {i + 1: v for i, v in enumerate(h)}  # a function with domain 1..n is printed as a sequence
 
 
 def canon(v):
-    """tuples all the way down (TLA+ sequences), dict keys kept"""
+    """lists all the way down (TLA+ sequences), dicts for records; functions over integers get int keys"""
     if isinstance(v, (list, tuple)):
-        return tuple(canon(x) for x in v)
+        return [canon(x) for x in v]
     if isinstance(v, dict):
         return {k: canon(x) for k, x in v.items()}
     if isinstance(v, (np.bool_,)):
@@ -60,6 +64,13 @@ def canon(v):
 
 
 def rat(x, emb, length=False):
+    """lattice coordinate (length) of float x as a reduced rational [num, den] with den | 64, within 1e-8"""
+    x = float(x)
+    qf = x / emb.quantum if length else (x - emb.origin) / emb.quantum
+    n64 = round(qf * 64.0)
+    if abs(qf * 64.0 - n64) <= 64e-8 * max(1.0, abs(qf)) and abs(n64) < MAXNUM * 64:
+        g = math.gcd(n64, 64)
+        return [n64 // g, 64 // g]
     q = emb.len_q(x) if length else emb.q_of(x)
     f = q.limit_denominator(MAXDEN)
     if abs(q - f) > Fraction(1, 10**8) * max(1, abs(f)):
@@ -69,7 +80,30 @@ def rat(x, emb, length=False):
         raise OffLattice(f"coordinate {float(x)!r} is {float(q)!r} lattice units: not a small rational")
     if abs(f.numerator) > MAXNUM:
         raise TooBig()
-    return (f.numerator, f.denominator)
+    return [f.numerator, f.denominator]
+
+
+_SUBS = [(re.compile(r"<<"), "["), (re.compile(r">>"), "]")]
+_KEY = re.compile(r"([A-Za-z_][A-Za-z0-9_]*) \|->")
+_FKEY = re.compile(r"(-?\d+) :>")
+
+
+def fastparse(block):
+    """one state of a TLC dump -> {var: value}; TLA+ value syntax rewritten to JSON (sequences -> lists, records ->
+    dicts, functions k :> v -> dicts with string keys).  Only for the value shapes DF.tla produces."""
+    out = {}
+    for part in block.split("/\\ ")[1:]:
+        name, _, val = part.partition(" = ")
+        name = name.strip()
+        if name == "viol":
+            out[name] = val.strip()
+            continue
+        t = val.replace("[", "{").replace("]", "}").replace("<<", "[").replace(">>", "]").replace("(", "{").replace(")", "}")
+        t = t.replace("@@", ",").replace("TRUE", "true").replace("FALSE", "false")
+        t = _KEY.sub(r'"\1":', t)
+        t = _FKEY.sub(r'"\1":', t)
+        out[name] = json.loads(t)
+    return out
 
 
 class World:
@@ -78,11 +112,25 @@ class World:
         self.obj = {}  # oid -> real object (strong reference while live)
         self.oid = {}  # id(object) -> oid
         self.nfile = 0
+        self.last_cond = ""
         heap = heap_dict(heap)
         for o in sorted(heap):
             self._build(heap, o)
         self.vars = {x: self.obj[int(o)] for x, o in roots.items()}
         self._gc()
+
+    def clone(self):
+        """an independent copy of the objects with the same sharing and the same ids"""
+        w = World.__new__(World)
+        w.df, w.emb, w.scratch, w.nfile = self.df, self.emb, self.scratch, self.nfile
+        w.obj, w.vars = copy.deepcopy((self.obj, self.vars))
+        w.oid = {id(real): o for o, real in w.obj.items()}
+        w.last_cond = ""
+        return w
+
+    def masks_shared(self):
+        fs = [v for v in self.obj.values() if isinstance(v, self.df.Field)]
+        return any(np.shares_memory(a.valid, b.valid) for i, a in enumerate(fs) for b in fs[i + 1:])
 
     # ------------------------------------------------------------------ construction
     def _reg(self, rec):
@@ -319,26 +367,26 @@ class World:
         for o in sorted(self.obj):
             real = self.obj[o]
             if isinstance(real, df.Region):
-                heap[o] = {"k": "region", "lo": tuple(rat(v, emb) for v in real.pmin), "hi": tuple(rat(v, emb) for v in real.pmax),
-                           "units": tuple(str(u) for u in real.units), "dims": tuple(str(d) for d in real.dims)}
+                heap[o] = {"k": "region", "lo": [rat(v, emb) for v in real.pmin], "hi": [rat(v, emb) for v in real.pmax],
+                           "units": [str(u) for u in real.units], "dims": [str(d) for d in real.dims]}
             elif isinstance(real, df.Mesh):
-                heap[o] = {"k": "mesh", "region": self.oid.get(id(real.region), 0), "n": tuple(int(v) for v in real.n),
-                           "sub": tuple(self.oid.get(id(s), 0) for s in real.subregions.values()), "names": tuple(real.subregions)}
+                heap[o] = {"k": "mesh", "region": self.oid.get(id(real.region), 0), "n": [int(v) for v in real.n],
+                           "sub": [self.oid.get(id(s), 0) for s in real.subregions.values()], "names": list(real.subregions)}
             else:
                 arr = np.asarray(real.array)
                 valid = np.asarray(real.valid)
                 nv = int(real.nvdim)
-                shape = tuple(int(v) for v in arr.shape[:-1])
-                if valid.dtype != np.bool_ or tuple(valid.shape) != shape or arr.shape[-1] != nv:
+                shape = [int(v) for v in arr.shape[:-1]]
+                if valid.dtype != np.bool_ or list(valid.shape) != shape or arr.shape[-1] != nv:
                     anomalies.append((o, f"validity dtype/shape {valid.dtype}/{valid.shape}, array shape {arr.shape}, nvdim {nv}"))
                 flat = fld.flatten(arr)
                 with np.errstate(all="ignore"):
                     r = np.rint(flat.real if np.iscomplexobj(flat) else flat)
                     vx = bool(np.all(np.isfinite(flat)) and not np.iscomplexobj(flat) and np.all(np.abs(flat - r) <= 1e-9 * np.maximum(1.0, np.abs(r)))
                               and np.all(np.abs(r) < 2**30))
-                lab = tuple(real.vdims) if real.vdims else ()
+                lab = [str(c) for c in real.vdims] if real.vdims else []
                 vm = real.vdim_mapping or {}
-                mp = tuple(str(vm[c]) for c in lab) if lab and all(c in vm for c in lab) and len(vm) == len(lab) else ()
+                mp = [str(vm[c]) for c in lab] if lab and all(c in vm for c in lab) and len(vm) == len(lab) else []
                 if vm and not mp:
                     anomalies.append((o, f"partial component-to-axis mapping {vm} for labels {lab}"))
                 vo = o
@@ -350,8 +398,8 @@ class World:
                         vo = g
                         break
                 heap[o] = {"k": "field", "mesh": self.oid.get(id(real.mesh), 0), "nv": nv,
-                           "arr": tuple(tuple(int(v) for v in row) for row in r.astype(np.int64)) if vx else tuple((0,) * nv for _ in range(flat.shape[0])),
-                           "valid": tuple(bool(v) for v in fld.flatten_mask(valid.astype(bool))), "shape": shape, "lab": lab, "map": mp,
+                           "arr": r.astype(np.int64).tolist() if vx else [[0] * nv for _ in range(flat.shape[0])],
+                           "valid": fld.flatten_mask(valid.astype(bool)).tolist(), "shape": shape, "lab": lab, "map": mp,
                            "vx": vx, "mx": True, "vo": vo}
         roots = {x: self.oid[id(v)] for x, v in self.vars.items()}
         return heap, roots, anomalies
@@ -359,7 +407,7 @@ class World:
 
 # ------------------------------------------------------------------------------------------------
 def spec_heap(state_heap):
-    """heap of a parsed TLC state -> {oid: record} with tuples"""
+    """heap of a parsed TLC state -> {oid: record} (lists)"""
     return {o: canon(rec) for o, rec in heap_dict(state_heap).items()}
 
 
@@ -410,18 +458,5 @@ def diff_heaps(want, wroots, got, groots):
 
 
 def jsonable_heap(heap):
-    """observed heap -> JSON for the trace specification: list of [oid, record], rationals as [num, den]"""
-    out = []
-    for o in sorted(heap):
-        rec = dict(heap[o])
-        for key, v in list(rec.items()):
-            if isinstance(v, tuple):
-                rec[key] = _tolist(v)
-        out.append([o, rec])
-    return out
-
-
-def _tolist(v):
-    if isinstance(v, tuple):
-        return [_tolist(x) for x in v]
-    return v
+    """observed heap -> JSON for the trace specification: list of [oid, record]"""
+    return [[o, heap[o]] for o in sorted(heap)]
